@@ -27,6 +27,18 @@ EXTERNALS = [
 ]
 
 
+# names that are string prefixes / case or padding twins of one another: drawn more often than the rest, because most
+# name-handling defects need two such names in one tree
+COLLIDING = ["a", "ab", "a_b", "aa", "a·b", "m0", "m01", "m1", "models", "Models", "py", "pyx", "handlers", "myhandlers", "h"]
+
+
+def pick_name(rnd, names):
+    fam = [n for n in COLLIDING if n in names]
+    if len(fam) >= 3 and rnd.random() < 0.4:
+        return rnd.choice(fam)
+    return rnd.choice(names)
+
+
 def scratch_dir() -> str:
     base = os.environ.get("PTA_SCRATCH")
     if not base:
@@ -76,7 +88,7 @@ def random_layout(rnd: random.Random, root="proj", depth=4, n_dirs=(2, 6), n_fil
         parent = rnd.choice(dirs[-2:]) if rnd.random() < 0.5 else rnd.choice(dirs)
         if parent.count("/") + (1 if parent else 0) >= depth:
             continue
-        n = rnd.choice(names)
+        n = pick_name(rnd, names)
         if root_named_dir and len(dirs) == 1:
             n = root  # layouts like shop/shop: a package named like the root directory
         if n in used[parent] or (n == root and not root_named_dir):
@@ -93,7 +105,7 @@ def random_layout(rnd: random.Random, root="proj", depth=4, n_dirs=(2, 6), n_fil
             files.append("__init__.py")
     for _ in range(rnd.randint(*n_files)):
         d = rnd.choice(dirs)
-        n = rnd.choice(names)
+        n = pick_name(rnd, names)
         if n in used[d]:
             continue
         used[d].add(n)
